@@ -171,6 +171,14 @@ def structural_tables():
         'integers': pd.DataFrame({'i': (np.arange(n) % 7), 'j': ((np.arange(n) * 3) % 5), 'k': np.arange(n) // 4}),
         'int-names-dup': pd.DataFrame({3: x, 1: y, 2: x}),
     }
+    # one gross outlier: its standard score under a Gaussian marginal (6.1) lies beyond norm.ppf(1 - EPSILON) = 5.17, so the
+    # clip of the property's formula is material for that row
+    xo = x.copy()
+    xo[5] = 1e3
+    wo = w.copy()
+    wo[[3, 30]] = [-4e4, 5e4]
+    out['outlier(x*,y,z)'] = pd.DataFrame({'x': xo, 'y': y, 'z': z})
+    out['outliers(w**,x,y)'] = pd.DataFrame({'w': wo, 'x': x + 0.5 * w, 'y': y})
     return out
 
 
